@@ -282,6 +282,10 @@ impl Sm2PrivateKey {
             true => 33,
             false => 65,
         };
+        // C1 || C2 || C3 with at least one byte of C2
+        if ciphertext.len() < c1_end_index + 32 + 1 {
+            return Err(Sm2Error::InvalidFieldLen);
+        }
         let c1_bytes = &ciphertext[0..c1_end_index];
         let len = ciphertext.len();
         let c2_bytes = match model {
